@@ -18,7 +18,8 @@ from ..astutil import parent_map, ancestors, get_arg, attr_chain, short
 from ..report import fkey
 
 EDGE_ITERS = {'iter_in_edges': 2, 'iter_out_edges': 2, 'iter_edges': 1,
-              'iter_in_edges_cached': 2, 'iter_out_edges_cached': 2}    # name -> position of edge_type
+              'iter_in_edges_cached': 2, 'iter_out_edges_cached': 2,
+              'get_in_degree': 2, 'get_out_degree': 2}    # name -> position of edge_type
 NX_ACCESSORS = {'predecessors', 'successors', 'in_edges', 'out_edges', 'edges', 'in_degree', 'out_degree'}
 GRAPH_RECV = re.compile(r'(^|\.)_?graph(_copy)?$|^g$')
 TABLE = os.path.join(os.path.dirname(os.path.dirname(os.path.abspath(__file__))), 'tables', 'edge_walks.json')
